@@ -373,7 +373,13 @@ def wrapper(ctx, tk):
                     arg = x.a[1][0] if x.a[1] else None
                     if arg is not None and not (arg.k == "call" and arg.a[0].k == "attr" and arg.a[0].a[1] == "ravel"):
                         ok = None
-            ctx.decide("C05.d", w, "with axis=None the numpy function of the same name is applied to the flat data", ok, node=r.ast, key="axis-none", engine="E6")
+                        # the row results re-reduced: they hold a pad value (0) for trailing empty rows and whatever reduceat left for
+                        # the others, which then takes part in max / min / prod of the whole array
+                        if arg.k == "call" and arg.a[0].k in ("free", "lparam", "global", "param") and any(k_ == "axis" for k_, _ in arg.a[2]):
+                            ok = False
+            ctx.decide("C05.d", w, "with axis=None the numpy function of the same name is applied to the flat data", ok,
+                       "`%s` reduces the per-row results once more: the values standing in for empty rows (padding 0, a neighbour's element) take part, so min() of all-positive "
+                       "data ending in an empty row is 0" % (tm,), node=r.ast, key="axis-none", engine="E6")
     # not-allowed axis -> NotImplemented
     for r in fa.cfg.returns():
         tm = fa.term(r.ast.value, r)
